@@ -50,6 +50,7 @@ long irsym_logs_equal(long a, long b){ auto x = gLogs[a], y = gLogs[b]; std::sor
 long irsym_log_count(long run, long op){ long n = 0; for(auto& e : gLogs[run]){ if(op >= 1000){ if((e[0] == 2 || e[0] == 3 || e[0] == 4) && e[1] < op - 1000) ++n; } else if(e[0] == op) ++n; } return n; }
 void irsym_log_clear(long run){ gLogs[run].clear(); }
 long irsym_is_symbolic_run(void){ return 0; }
+void irsym_omp_mode(long){}
 }
 int main(int argc, char** argv){
     if(argc < 3){ fprintf(stderr, "usage\n"); return 2; }
